@@ -59,6 +59,7 @@ Section Cipher.
   Hypothesis dh_agree : forall a b, dh a (pubof b) = dh b (pubof a).
   Hypothesis aead_ok : forall k n p, let '(c, t) := aead_enc k n p in aead_dec k n c t = Some p /\ length t = 16%nat.
   Hypothesis pub_len : forall a, length (pubof a) = 32%nat.
+  Hypothesis pub_canonical : forall a, canonical_pub (pubof a) = true.
 
   Lemma els_decrypt_encrypt sk esk nonce pt cookie : length nonce = 12%nat -> length cookie = 32%nat ->
     els_decrypt dh kdf aead_dec cookie sk (els_encrypt dh pubof kdf aead_enc (pubof sk) esk nonce pt) = Ok pt.
@@ -68,7 +69,7 @@ Section Cipher.
     destruct (aead_enc (kdf (dh esk (pubof sk))) nonce pt) as [ct tag]. destruct A as [A Lt].
     assert (S : els_split (pubof esk ++ nonce ++ ct ++ tag) = Ok (pubof esk, nonce, ct, tag)).
     { apply split4_app; [apply pub_len | exact Ln | exact Lt]. }
-    rewrite S. cbn [rbind]. rewrite <- dh_agree. rewrite A. reflexivity.
+    rewrite S. cbn [rbind]. rewrite pub_canonical. cbn [negb]. rewrite <- dh_agree. rewrite A. reflexivity.
   Qed.
 End Cipher.
 
@@ -84,7 +85,21 @@ Lemma els_decrypt_inputs dh kdf aead_dec cookie sk d e n c t p : els_split d = O
   els_decrypt dh kdf aead_dec cookie sk d = Ok p -> aead_dec (kdf (dh sk e)) n c t = Some p.
 Proof.
   intros S H. unfold els_decrypt in H. destruct (negb (length cookie =? 32)%nat); [discriminate|].
-  rewrite S in H. cbn [rbind] in H. destruct (aead_dec (kdf (dh sk e)) n c t); [|discriminate]. injection H as <-. reflexivity.
+  rewrite S in H. cbn [rbind] in H. destruct (negb (canonical_pub e)); [discriminate|].
+  destruct (aead_dec (kdf (dh sk e)) n c t); [|discriminate]. injection H as <-. reflexivity.
+Qed.
+(* the second spelling of an X25519 key (most significant bit set) is refused: without this the
+   key agreement, which ignores that bit, would make byte 31 of the data malleable (defect D23) *)
+Lemma els_decrypt_noncanonical dh kdf aead_dec cookie sk d e n c t : els_split d = Ok (e, n, c, t) ->
+  canonical_pub e = false -> els_decrypt dh kdf aead_dec cookie sk d = Err.
+Proof.
+  intros S NC. unfold els_decrypt. destruct (negb (length cookie =? 32)%nat); [reflexivity|].
+  rewrite S. cbn [rbind]. rewrite NC. reflexivity.
+Qed.
+Lemma els_decrypt_accepts_canonical_only dh kdf aead_dec cookie sk d e n c t p : els_split d = Ok (e, n, c, t) ->
+  els_decrypt dh kdf aead_dec cookie sk d = Ok p -> canonical_pub e = true.
+Proof.
+  intros S H. destruct (canonical_pub e) eqn:E; [reflexivity|]. rewrite (els_decrypt_noncanonical _ _ _ _ _ _ _ _ _ _ S E) in H. discriminate.
 Qed.
 
 (* ---- blinding date ---- *)
